@@ -40,7 +40,7 @@ ASSUMPTIONS = [
     "nothing is asserted about the bytes a failed or crashed save leaves behind",
 ]
 COMPONENTS = {"real": ["partitura.io.exportmatch", "partitura.io.importmatch", "partitura.io.matchfile_base / matchlines_v0 / matchlines_v1 / matchfile_utils", "musicanalysis.performance_codec (time maps, matched notes)", "score.add_measures/tie_notes/find_tuplets"], "stub": ["raw file layer (SimFS)", "line-level channel disturbances applied by the harness between writer and reader"]}
-PROBES = ("second_generation", "auto_unfold", "line_duplicated", "blank_lines", "conflicting_deletion", "conflicting_insertion", "ornament_entry", "deletion_entry", "insertion_entry", "pickup", "timesig_change", "ties", "grace", "pedal_lines", "fault_in_flight", "fixture_v0", "fixture_v1", "reader_on_torn_file")
+PROBES = ("second_generation", "second_generation_after_edit", "auto_unfold", "line_duplicated", "blank_lines", "conflicting_deletion", "conflicting_insertion", "ornament_entry", "deletion_entry", "insertion_entry", "pickup", "timesig_change", "ties", "grace", "pedal_lines", "fault_in_flight", "fixture_v0", "fixture_v1", "reader_on_torn_file")
 
 FIXTURE_DIRS = ("/repo/tests/data/match",)
 
@@ -125,7 +125,8 @@ def generate(seed, tier, cfg):
             err = {"F1": f.choice((28, 13)), "F2": f.choice((28, 5)), "F3": 28, "F4": 0, "F5": f.choice((2, 13)), "F6": 5}[kind]
             faults.append({"kind": kind, "path": "*", "at": f.choice((0, 0, 1, 2, 3)) if kind in ("F2", "F4", "F6") else 0, "errno": err, "op_index": oi, "frac": (round(f.random(), 3) if kind in ("F2", "F4", "F6") and f.random() < 0.5 else None)})
     if k.random() < 0.4:
-        ops.append({"k": "regen", "ppq": k.choice((480, 960, 100, 96, 384)), "mpq": k.choice((500000, 600000, 454545, 750000))})
+        same = k.random() < 0.4
+        ops.append({"k": "regen", "ppq": "same" if same else k.choice((480, 960, 100, 96, 384)), "mpq": "same" if same else k.choice((500000, 600000, 454545, 750000)), "shift": k.choice((0.0, 0.25, 1.5, 0.013)) if same or k.random() < 0.3 else 0.0})
     return {"mode": "roundtrip", "workload": asc, "perf_seed": st.workload.randrange(1 << 30), "ops": ops, "faults": faults, "knobs": {"ppq": k.choice((480, 480, 960, 100, 96)), "mpq": k.choice((500000, 500000, 600000, 454545)), "chunk": k.choice((0, 0, 7, 64, 1)), "auto_unfold": k.random() < 0.3}}
 
 
@@ -462,10 +463,19 @@ def execute(case, keep_log=False):
                     pp1 = perf1.performedparts[0]
                     res.probe("second_generation")
                     nontrivial = True
-                    want2 = describe(pp1, al1, None, ppq=op["ppq"], mpq=op["mpq"])
+                    ppq2 = pp1.ppq if op["ppq"] == "same" else op["ppq"]
+                    mpq2 = pp1.mpq if op["mpq"] == "same" else op["mpq"]
+                    if op.get("shift"):
+                        # the loaded performance is edited through the note item interface (a delay) before it is
+                        # written again: the times in seconds are what is written, whatever ticks the notes carry
+                        res.probe("second_generation_after_edit")
+                        for n in pp1.notes:
+                            n["note_off"] = n["note_off"] + op["shift"]
+                            n["note_on"] = n["note_on"] + op["shift"]
+                    want2 = describe(pp1, al1, None, ppq=ppq2, mpq=mpq2)
                     path2 = "/simfs/b.match"
                     try:
-                        save_match(al1, pp1, sc1.parts[0], path2, ppq=op["ppq"], mpq=op["mpq"], assume_unfolded=True)
+                        save_match(al1, pp1, sc1.parts[0], path2, ppq=ppq2, mpq=mpq2, assume_unfolded=True)
                         perf2, al2, _ = with_timeout(20, load_match, path2, create_score=False), None, None
                         perf2, al2 = perf2[0], perf2[1]
                         compare(res, "regen", want2, describe(perf2, al2, None))
@@ -480,7 +490,7 @@ def execute(case, keep_log=False):
                         site = [f for f in tb if "/partitura/" in f.filename]
                         if not site:
                             raise
-                        res.violation("A0-export-raised", "regen", "writing/loading what load_match returned with ppq=%s mpq=%s raised %s: %s (in %s)" % (op["ppq"], op["mpq"], type(e).__name__, e, site[-1].name), site=site[-1].name)
+                        res.violation("A0-export-raised", "regen", "writing/loading what load_match returned with ppq=%s mpq=%s raised %s: %s (in %s)" % (ppq2, mpq2, type(e).__name__, e, site[-1].name), site=site[-1].name)
                         outcome = "raised:" + type(e).__name__
             elif op["k"] == "disturb":
                 if content.get(path) == "ref":
